@@ -30,7 +30,22 @@ if "--no-merge" not in sys.argv:
     r = subprocess.run(["git", "-C", "/verif", "merge", "--no-edit", "ws-" + pid], text=True, stdout=subprocess.PIPE, stderr=subprocess.STDOUT)
     print(r.stdout[-1500:])
     if r.returncode != 0:
-        sys.exit("merge conflict: resolve in /verif, commit, then re-run with --no-merge")
+        # generated files: take ours and regenerate; KNOWN_FINDINGS.txt: union
+        for f in ["MANIFEST.json", "lean/CoapVerif.lean", "lean/CoapVerif/Driver/All.lean"]:
+            subprocess.run(["git", "-C", "/verif", "checkout", "--ours", f], stdout=subprocess.DEVNULL, stderr=subprocess.DEVNULL)
+        kf = "/verif/KNOWN_FINDINGS.txt"
+        s = re.sub(r"^(<<<<<<<|=======|>>>>>>>).*\n", "", open(kf).read(), flags=re.M)
+        seen, out = set(), []
+        for l in s.splitlines():
+            if l.strip() and l in seen: continue
+            seen.add(l); out.append(l)
+        open(kf, "w").write("\n".join(out) + "\n")
+        run([sys.executable, "/verif/tools/gen_registry.py"]); run([sys.executable, "/verif/tools/gen_manifest.py"])
+        left = run(["git", "-C", "/verif", "diff", "--name-only", "--diff-filter=U"])
+        left = [f for f in left.split() if f not in ("MANIFEST.json", "lean/CoapVerif.lean", "lean/CoapVerif/Driver/All.lean", "KNOWN_FINDINGS.txt")]
+        if left:
+            sys.exit("merge conflict in %s: resolve in /verif, commit, then re-run with --no-merge" % left)
+        run(["git", "-C", "/verif", "add", "-A"]); run(["git", "-C", "/verif", "commit", "-qm", "merge ws-" + pid])
 # rewrite hashes
 files = ["/verif/KNOWN_FINDINGS.txt", "/verif/hooks.json"] + ["/verif/design/" + f for f in os.listdir("/verif/design")] if os.path.isdir("/verif/design") else []
 for f in files:
